@@ -290,6 +290,7 @@ package sipsp
 //@ func ParseFLine(buf, offs, pl) (n, err)
 //@   requires bufOK(buf) && 0 <= offs && offs <= len(buf) && pl != nil && flOK(pl, offs)
 //@   modifies *pl
+//@   cases pl.state 0 7
 //@   ensures 0 <= n && n <= len(buf)
 //@   ensures err == ErrHdrOk || err == ErrHdrMoreBytes ==> offs <= n && flOK(pl, n)
 //@   ensures flOK(pl, len(buf))
@@ -312,3 +313,82 @@ package sipsp
 //@   ensures[C08] "reply-never-request-grammar": pl_old.state == flInit && isReplyStart(buf, offs) && err == ErrHdrBadChar ==>
 //@             !(isDigit(buf[offs+8]) && isDigit(buf[offs+9]) && isDigit(buf[offs+10]) && buf[offs+11] == ' ')
 //@   ensures[C08] "fin": err == ErrHdrOk ==> pl.state == flFIN
+
+// ---- Reset / Init make a used object new (C12) ----
+// For objects whose Reset wipes the whole struct the postcondition is "every cell is zero", i.e. equal to
+// a newly created object; no precondition on the previous state (used, abandoned or failed).
+
+//@ func (*PField).Reset(p) ()
+//@   inline
+
+//@ func (*PFromBody).Reset(fv) ()
+//@   requires fv != nil
+//@   inline
+//@   modifies *fv
+//@   ensures[C12,*] "zero": *fv == PFromBody{}
+
+//@ func (*PCSeqBody).Reset(cs) ()
+//@   requires cs != nil
+//@   inline
+//@   modifies *cs
+//@   ensures[C12,*] "zero": *cs == PCSeqBody{}
+
+//@ func (*PCallIDBody).Reset(cv) ()
+//@   requires cv != nil
+//@   inline
+//@   modifies *cv
+//@   ensures[C12,*] "zero": *cv == PCallIDBody{}
+
+//@ func (*PUIntBody).Reset(cl) ()
+//@   requires cl != nil
+//@   inline
+//@   modifies *cl
+//@   ensures[C12,*] "zero": *cl == PUIntBody{}
+
+//@ func (*PFLine).Reset(fl) ()
+//@   requires fl != nil
+//@   inline
+//@   modifies *fl
+//@   ensures[C12,*] "zero": *fl == PFLine{}
+
+//@ func (*Hdr).Reset(h) ()
+//@   requires h != nil
+//@   inline
+//@   modifies *h
+//@   ensures[C12,*] "zero": *h == Hdr{}
+
+//@ func (*PsipURI).Reset(u) ()
+//@   requires u != nil
+//@   inline
+//@   modifies *u
+//@   ensures[C12,*] "zero": *u == PsipURI{}
+
+//@ func (*PTokParam).Reset(pt) ()
+//@   requires pt != nil
+//@   inline
+//@   modifies *pt
+//@   ensures[C12,*] "zero": *pt == PTokParam{}
+
+//@ func (*URIParam).Reset(p) ()
+//@   requires p != nil
+//@   inline
+//@   modifies *p
+//@   ensures[C12,*] "zero": *p == URIParam{}
+
+//@ func (*URIHdr).Reset(h) ()
+//@   requires h != nil
+//@   inline
+//@   modifies *h
+//@   ensures[C12,*] "zero": *h == URIHdr{}
+
+//@ func (*PPAIs).Reset(c) ()
+//@   requires c != nil
+//@   inline
+//@   modifies *c
+//@   ensures[C12,*] "zero": *c == PPAIs{}
+
+//@ func (*PPAIs).Init(c) ()
+//@   requires c != nil
+//@   inline
+//@   modifies *c
+//@   ensures[C12,*] "zero": *c == PPAIs{}
